@@ -19,6 +19,7 @@
 #include <algorithm>
 #include <arpa/inet.h>
 #include <netinet/in.h>
+#include <sys/ioctl.h>
 #include <sys/socket.h>
 
 using namespace vf;
@@ -251,7 +252,7 @@ struct Exec {
             int rc = x_send(P, b.data(), len);
             int e = errno;
             if (sc.tp == BTLS) {
-                p_refused = rc < 0 && e == EAGAIN && ready_P;
+                p_refused = rc < 0 && e == EAGAIN;
                 if (p_refused) { p_ref_tag = tag; p_ref_len = len; size_t mv = std::min<size_t>(p2t.moved, len); p2t.pending.assign((const char *)b.data() + mv, len - mv); }
                 else if (rc > 0) p2t.pending.clear();
             }
@@ -372,10 +373,15 @@ struct Exec {
         return Outcome::pass();
     }
 
+    int unsent_at_cut = 0;
     void cut()
     {
         if (P.closed) return;
         int pfd = sh_data_fd(P.tag);
+        // bytes the kernel has not yet got across (tiny windows stall TCP for its persist
+        // timer): the FIN queues behind them, so its arrival time is the kernel's business
+        unsent_at_cut = 0;
+        if (pfd >= 0 && is_tcp_based(sc.tp)) ioctl(pfd, TIOCOUTQ, &unsent_at_cut);
         c.log("-- P dies: %s (P wrote %lu wire bytes, budget left %ld)",
               sc.cut_kind == 0 ? "shutdown(SHUT_WR)" : sc.cut_kind == 1 ? "xcm_close with the budget in force" : sc.cut_kind == 2 ? "budget lifted, flush attempt, xcm_close"
                                                                                                                      : sc.cut_kind == 3 ? "RST (SO_LINGER 0 + close)" : "xcm_close with unread data",
@@ -479,7 +485,7 @@ struct Exec {
             }
         }
         // the peer is dead (FIN or RST has reached T's kernel socket): xcm_receive has to say so
-        if (o.ok && with_cut && (peer_fin || peer_gone) && term == NONE && !T.closed) {
+        if (o.ok && with_cut && (peer_fin || peer_gone) && term == NONE && !T.closed && (unsent_at_cut == 0 || peer_rst)) {
             for (int k = 0; k < 60 && o.ok && term == NONE; k++) {
                 o = tcall(OP_RECV, 0, 70000);
                 if (term == NONE) usleep(3000);
@@ -529,7 +535,7 @@ struct Exec {
             rc = x_send(T, buf, len);
             e = errno;
             if (sc.tp == BTLS) {
-                t_refused = rc < 0 && e == EAGAIN && ready_T;
+                t_refused = rc < 0 && e == EAGAIN;
                 if (t_refused) { t_ref_tag = tag; t_ref_len = len; size_t mv = std::min<size_t>(t2p.moved, len); t2p.pending.assign((const char *)buf + mv, len - mv); }
                 else if (rc > 0) t2p.pending.clear(); // a retry that fails may still have emitted the pending record
             }
